@@ -24,6 +24,7 @@ type Violation struct {
 	Stack  []string          `json:"stack,omitempty"`
 	Logs   []string          `json:"logs,omitempty"`
 	Detail string            `json:"detail,omitempty"`
+	Pref   bool              `json:"pref"`
 }
 
 type AssertStat struct {
@@ -535,6 +536,7 @@ func (m *Machine) check(prop, label string, c *Term) {
 	if r == "sat" {
 		model, order := m.model()
 		m.sol.Pop()
+		pref := false
 		// prefer a model that also satisfies the harness's replayability preferences
 		if len(m.prefers) > 0 {
 			ex := tNot(c).S
@@ -546,10 +548,13 @@ func (m *Machine) check(prop, label string, c *Term) {
 			}
 			if r2 := m.sol.Check(ex); r2 == "sat" {
 				model, order = m.model()
+				pref = true
 			}
 			m.sol.Pop()
+		} else {
+			pref = true
 		}
-		m.recordViolation(Violation{Prop: prop, Label: label, Kind: "assert", Model: model, Order: order,
+		m.recordViolation(Violation{Prop: prop, Label: label, Kind: "assert", Pref: pref, Model: model, Order: order,
 			Path: append([]int{}, m.dec[:m.pos]...), Stack: m.stackStrings(), Logs: append([]string{}, m.logs...)})
 		m.ex.mu.Lock()
 		st.Violated++
@@ -573,10 +578,13 @@ func (m *Machine) recordViolation(v Violation) {
 	m.ex.mu.Lock()
 	defer m.ex.mu.Unlock()
 	k := v.Prop + "/" + v.Label
+	if v.Pref {
+		k += "/pref"
+	}
 	m.ex.violCount[k]++
 	max := m.cfg.MaxViolPer
 	if max == 0 {
-		max = 3
+		max = 4
 	}
 	if m.ex.violCount[k] <= max {
 		m.ex.Viols = append(m.ex.Viols, v)
